@@ -53,7 +53,7 @@ func isPureByPackage(pp string) bool {
 	}
 	// value-level library code: results are opaque, nothing reachable from the verified code is written
 	switch pp {
-	case "errors", "regexp", "regexp/syntax", "strings", "strconv", "fmt", "unicode", "unicode/utf8", "path", "math", "net/netip", "unique", "context", "runtime", "reflect":
+	case "errors", "internal/bytealg", "regexp", "regexp/syntax", "strings", "strconv", "fmt", "unicode", "unicode/utf8", "path", "math", "net/netip", "unique", "context", "runtime", "reflect":
 		return true
 	}
 	for _, p := range []string{"log/slog", "github.com/els0r/telemetry", "go.opentelemetry.io", "github.com/prometheus"} {
@@ -1027,9 +1027,24 @@ func (f *Frame) callByContract(fn *ssa.Function, con *Contract, args [][]*Term, 
 	}
 	vals := append(append([][]*Term{}, args...), resVals...)
 	// closure captures: the stub lists the captured variables (by value)
-	for i := range bindings {
-		et := fn.FreeVars[i].Type().Underlying().(*types.Pointer).Elem()
-		vals = append(vals, f.loadFrom(f.cur.mem, et, bindings[i][0], bindings[i][1]))
+	if len(bindings) > 0 {
+		stubFn := u.W.stubs[con]
+		byName := map[string]int{}
+		for i, fv := range fn.FreeVars {
+			byName[fv.Name()] = i
+		}
+		for k := range bindings {
+			idx := len(vals)
+			if stubFn == nil || idx >= len(stubFn.Params) {
+				break
+			}
+			i, ok := byName[stubFn.Params[idx].Name()]
+			if !ok {
+				i = k
+			}
+			et := fn.FreeVars[i].Type().Underlying().(*types.Pointer).Elem()
+			vals = append(vals, f.loadFrom(f.cur.mem, et, bindings[i][0], bindings[i][1]))
+		}
 	}
 	limit := tb.BVU(32, uint64(freshBase+u.objCtr+1))
 	// objects allocated by the callee live in the id band [limit, limit+2^16); everything the
